@@ -72,7 +72,7 @@ pub fn variance<T: W>(kind: &str, n: usize) {
     let what = || format!("[{} {} data {:?} = {:e} + {} * {:?}]", T::NAME, kind, x, mu, sigma, s);
     if var > 0.0 && mean.abs() <= T::VAR_RMAX * var.sqrt() * 1.000001 {
         mc::count("var_spread_clause_applied");
-        if mean.abs() >= 1e3 * var.sqrt() {
+        if offset_class::<T>(mean, var.sqrt()) == "large-offset" {
             mc::count("var_spread_clause_large_offset");
         }
     }
@@ -80,7 +80,7 @@ pub fn variance<T: W>(kind: &str, n: usize) {
         "vec" => {
             let v: Vec<T> = vt::<T>(&x);
             let mtol = 4.0 * n as f64 * T::EPS * sum_abs(&x) / n as f64;
-            expect_s::<T>(&Cx { op: "vec.mean", class: offset_class(mean, var.sqrt()), what: &what }, mc::guard(|| v.mean()), mean, mtol);
+            expect_s::<T>(&Cx { op: "vec.mean", class: offset_class::<T>(mean, var.sqrt()), what: &what }, mc::guard(|| v.mean()), mean, mtol);
             judge_var_std::<T>(&v, n, mean, var, &what);
         }
         _ => {
@@ -89,7 +89,7 @@ pub fn variance<T: W>(kind: &str, n: usize) {
             let y: Vec<f64> = x.iter().rev().map(|v| -*v).collect();
             let a = if axis == 0 { M::new(n, 2, |i, j| if j == 0 { x[i] } else { y[i] }) } else { M::new(2, n, |i, j| if i == 0 { x[j] } else { y[j] }) };
             let d: DenseMatrix<T> = build(&a);
-            let cls = offset_class(mean, var.sqrt());
+            let cls = offset_class::<T>(mean, var.sqrt());
             if cls == "large-offset" {
                 mc::count("var_lane_large_offset");
             }
